@@ -36,6 +36,8 @@ TNext ==
                ELSE IF e.c = "CMD" THEN [s |-> LinkAcc(Geo, Cfg.nbanks, link, e), bad |-> {}]
                ELSE IF e.c \in {"RD", "WR", "ACT"} THEN LinkCmd(Cfg.nbanks, link, e, x, dev.open[x])
                ELSE IF e.c = "END" THEN [s |-> link, bad |-> LinkEnd(link)]
+               ELSE IF e.c = "GEOM" THEN [s |-> link, bad |-> IF e.aw # AddrBits(Geo)
+                                                               THEN {<<"port address width differs from the device's address space", "GEOM", 0, e.aw, AddrBits(Geo)>>} ELSE {}]
                ELSE [s |-> link, bad |-> {}]
          mm == IF On("mem") THEN MemStep(Cfg, mem, e) ELSE [s |-> mem, bad |-> {}]
          rf == IF On("ref") THEN RefStep(Cfg, Rq, ref, e) ELSE [s |-> ref, bad |-> {}]
